@@ -198,33 +198,39 @@ def revCoordsOld (n0 start0 end0 L C W : Int) : Int × Int × Int × Int × Int 
   let n := en - st + 1
   (c, st, en, n, n - c)
 
-/-- "Copy the sequence frag", reverse complement when `W < 0`, "Copy annotation": the tail of the alignment branch once the
-    coordinates `(C, start, end, n, W)` of a non-empty window are known -/
-def windowCopy (h : MsaH) (sq t : Sq) (W : Int) (c st en n w : Int) : MsaH × Sq × Status :=
-  -- memcpy(sq->seq, tmpsq->seq + start - 1, n) / memcpy(sq->dsq + 1, tmpsq->dsq + start, n): inside tmpsq's residue array
-  if n < 0 || st < 1 || st + n > (t.n : Int) + 2 then (h, sq, .fault) else
-  let sq := sq.growTo n.toNat
+/-- `esl_sq_GrowTo(sq, sq->n); memcpy(sq->seq, tmpsq->seq + sq->start - 1, n)` (digital: `memcpy(sq->dsq + 1, tmpsq->dsq + sq->start, n)`)
+    with the coordinates just computed -/
+def windowSlice (sq t : Sq) (c st en n w : Int) : Sq :=
   let frag := t.seq.extract (st.toNat - 1) (st.toNat - 1 + n.toNat)
   -- a slice reaching the terminator (only from inconsistent caller state) copies it as a residue
   let frag := if frag.size < n.toNat then frag ++ (Array.range (n.toNat - frag.size)).map (fun _ => if t.digital then (255 : UInt8) else 0) else frag
-  let sq := { sq with seq := frag, start := st, end_ := en, C := c, W := w }
-  let (sq, stR, excR) := if W < 0 then revcomp sq else (sq, Status.ok, false)
-  if stR == .fault then (h, sq, .fault) else
-  if stR != .ok then ({ h with haveErr := true, exc := h.exc || excR }, sq, .einval) else
-  ({ h with exc := h.exc || excR },
-   { sq with name := t.name, source := t.name, acc := t.acc, desc := t.desc,
-             nalloc := if t.name.size ≥ sq.nalloc then t.name.size + 1 else sq.nalloc,
-             dalloc := if t.desc.size ≥ sq.dalloc then t.desc.size + 1 else sq.dalloc,
-             roff := -1, doff := -1, eoff := -1, hoff := -1 }, .ok)
+  { sq.growTo n.toNat with seq := frag, start := st, end_ := en, C := c, W := w }
+
+/-- "Copy annotation": `esl_sq_SetName(sq, tmpsq->name); esl_sq_SetSource(sq, tmpsq->name); SetAccession; SetDesc; roff = doff = eoff = hoff = -1` -/
+def copyAnnot (q t : Sq) : Sq :=
+  { q with name := t.name, source := t.name, acc := t.acc, desc := t.desc,
+           nalloc := if t.name.size ≥ q.nalloc then t.name.size + 1 else q.nalloc,
+           dalloc := if t.desc.size ≥ q.dalloc then t.desc.size + 1 else q.dalloc,
+           roff := -1, doff := -1, eoff := -1, hoff := -1 }
+
+/-- "Copy the sequence frag", reverse complement when `W < 0`, "Copy annotation": the tail of the alignment branch once the
+    coordinates `(C, start, end, n, W)` of a non-empty window are known -/
+def windowCopy (h : MsaH) (sq t : Sq) (W : Int) (c st en n w : Int) : MsaH × Sq × Status :=
+  -- the memcpy source must lie inside tmpsq's residue array
+  if n < 0 || st < 1 || st + n > (t.n : Int) + 2 then (h, sq, .fault) else
+  let r := if W < 0 then revcomp (windowSlice sq t c st en n w) else (windowSlice sq t c st en n w, Status.ok, false)
+  if r.2.1 == .fault then (h, r.1, .fault) else
+  if r.2.1 != .ok then ({ h with haveErr := true, exc := h.exc || r.2.2 }, r.1, .einval) else
+  ({ h with exc := h.exc || r.2.2 }, copyAnnot r.1 t, .ok)
+
+/-- "special: if we're initializing a revcomp window read, back ascii->idx up one" -/
+def adjIdx (h : MsaH) (sq : Sq) (W : Int) : MsaH := if W < 0 && sq.start == 0 then { h with idx := h.idx - 1 } else h
 
 def readWindowWith (rev : Int → Int → Int → Int → Int → Int → Int × Int × Int × Int × Int)
     (h : MsaH) (sq : Sq) (C W : Int) : MsaH × Sq × Status :=
-  -- special: initialising a revcomp window read backs idx up one
-  let h := if W < 0 && sq.start == 0 then { h with idx := h.idx - 1 } else h
-  let (h, t, st) := nextRow h
-  match t with
-  | none => (h, sq, st)
-  | some t =>
+  match nextRow (adjIdx h sq W) with
+  | (h, none, st) => (h, sq, st)
+  | (h, some t, _) =>
     if sq.digital != t.digital then (h, sq, .fault) else
     if !(W > 0) && sq.L == -1 then ({ h with exc := true }, sq, .esyntax) else
     -- (the reverse branch starts from the caller's sq->L)
